@@ -27,11 +27,32 @@ static BIGGEST: AtomicUsize = AtomicUsize::new(0);
 /// a single request above this is refused (null): the library's `try_reserve` paths report an error,
 /// anything else aborts the worker, which the parent observes
 const REFUSE: usize = 1 << 31;
+/// requests above this size get their call site recorded (first automerge / hexane frame of a backtrace)
+const SITE_ABOVE: usize = 64 << 20;
+static IN_CAPTURE: std::sync::atomic::AtomicBool = std::sync::atomic::AtomicBool::new(false);
+static BIG_SITE: std::sync::Mutex<String> = std::sync::Mutex::new(String::new());
+
+fn note_big_site(size: usize) {
+    if size < SITE_ABOVE || IN_CAPTURE.swap(true, Ordering::SeqCst) {
+        return;
+    }
+    let bt = std::backtrace::Backtrace::force_capture().to_string();
+    let frame = bt
+        .lines()
+        .filter_map(|l| l.trim().split_once(": ").map(|x| x.1.trim().to_string()))
+        .find(|f| (f.starts_with("automerge::") || f.starts_with("hexane::") || f.starts_with("<automerge::") || f.starts_with("<hexane::")))
+        .unwrap_or_default();
+    if let Ok(mut g) = BIG_SITE.try_lock() {
+        *g = frame;
+    }
+    IN_CAPTURE.store(false, Ordering::SeqCst);
+}
 
 unsafe impl GlobalAlloc for Counting {
     unsafe fn alloc(&self, l: Layout) -> *mut u8 {
         if l.size() > BIGGEST.load(Ordering::Relaxed) {
             BIGGEST.store(l.size(), Ordering::Relaxed);
+            note_big_site(l.size());
         }
         if l.size() >= REFUSE {
             return std::ptr::null_mut();
@@ -52,6 +73,7 @@ unsafe impl GlobalAlloc for Counting {
     unsafe fn realloc(&self, p: *mut u8, l: Layout, new: usize) -> *mut u8 {
         if new > BIGGEST.load(Ordering::Relaxed) {
             BIGGEST.store(new, Ordering::Relaxed);
+            note_big_site(new);
         }
         if new >= REFUSE {
             return std::ptr::null_mut();
@@ -76,6 +98,12 @@ static A: Counting = Counting;
 fn reset_peak() {
     PEAK.store(CUR.load(Ordering::Relaxed), Ordering::Relaxed);
     BIGGEST.store(0, Ordering::Relaxed);
+    if let Ok(mut g) = BIG_SITE.try_lock() {
+        g.clear();
+    }
+}
+fn big_site() -> String {
+    BIG_SITE.try_lock().map(|g| g.clone()).unwrap_or_default()
 }
 fn peak_since() -> (usize, usize) {
     (PEAK.load(Ordering::Relaxed).saturating_sub(CUR.load(Ordering::Relaxed).min(PEAK.load(Ordering::Relaxed))), BIGGEST.load(Ordering::Relaxed))
@@ -1135,7 +1163,7 @@ fn worker(args: &[String]) {
             }
         };
         let (peak, biggest) = peak_since();
-        writeln!(out, "{}", json!({"done": i, "o": outcome, "n": n, "peak": peak, "big": biggest, "ms": t0.elapsed().as_millis() as u64})).unwrap();
+        writeln!(out, "{}", json!({"done": i, "o": outcome, "n": n, "peak": peak, "big": biggest, "ms": t0.elapsed().as_millis() as u64, "bigsite": big_site()})).unwrap();
     }
     out.flush().unwrap();
 }
@@ -1508,7 +1536,7 @@ fn mutate(args: &[String]) {
                         }
                     };
                     bad.push(json!({"base": bn, "target": t, "kind": kind, "item": items[i], "o": o, "n": n, "peak": peak, "big": big, "ms": ms, "over": over, "input": input_hex,
-                                    "site": r["site"].as_str().unwrap_or("")}));
+                                    "site": r["site"].as_str().unwrap_or(""), "bigsite": r["bigsite"].as_str().unwrap_or("")}));
                 }
             }
         }
@@ -1540,7 +1568,7 @@ fn main() {
                 Some(st) => feed_str(&args[2], st, None),
                 None => feed(&args[2], &hex::decode(inp.trim()).expect("hex"), None),
             };
-            println!("FEED {}", o);
+            println!("FEED {} biggest={} bigsite={}", o, peak_since().1, big_site());
         }
         Some("mutate") => mutate(&args),
         Some("worker") => worker(&args),
